@@ -59,7 +59,9 @@ def valid_css(rng):
     return w() + case_fuzz(rng, s) + w(), "hsla"
 
 
-NEAR = ["rgb(", "rgb()", "rgb(1,2)", "rgb(1,2,3", "rgb(1 2 3)", "rgb(1,2,3,4,5)", "rgb(300,0,0)", "rgb(-1,0,0)", "rgb(1e2,0,0)",
+NEAR = ["rgb(" + "9" * 320 + "%, 0%, 0%)", "rgb(" + "9" * 320 + ", 0, 0)", "rgba(1,2,3," + "9" * 320 + ")", "hsl(" + "9" * 320 + ",50%,50%)",
+        "hsl(120," + "9" * 320 + "%,50%)", "hsla(120,50%,50%," + "9" * 320 + "%)", "rgb(0." + "0" * 330 + "1%, 0%, 0%)",
+        "rgb(", "rgb()", "rgb(1,2)", "rgb(1,2,3", "rgb(1 2 3)", "rgb(1,2,3,4,5)", "rgb(300,0,0)", "rgb(-1,0,0)", "rgb(1e2,0,0)",
         "rgb(50%,50%)", "rgb(1px,2px,3px)", "rgb(1,2,3)garbage", "rgba(1,2,3)", "rgba(1,2,3,2)", "rgba(1,2,3,150)", "rgba(1,2,3,-0.5)",
         "rgba(1,2,3,50%)", "rgba(1 2 3 / 0.5)", "hsl(", "hsl()", "hsl(120)", "hsl(120,50%)", "hsl(120,50%,50%", "hsl(120deg,50%,50%)",
         "hsl(120,150%,50%)", "hsl(120,50%,-5%)", "hsl(120 50% 50%)", "hsl(120,0.5,0.5)", "hsl(120,50,50)", "hsl(nan,50%,50%)",
@@ -95,6 +97,7 @@ ATOMS = [0, 0, 1, 1, 2, 127, 128, 255, 256, 300, 360, 361, -1, -255, 1000, 2 ** 
          0.0, 1.0, 0.5, 0.25, 0.999, 1.0000001, 1.5, 2.0, 100.0, 127.5, 254.5, 255.0, 255.5, 359.9, 360.0, 360.5, -0.0, -0.5, 1e-9, 1e9, 1e300,
          float("nan"), float("inf"), float("-inf"),
          "", "0", "1", "255", "256", "0.5", "50%", "100%", "101%", "-5%", "abc", " 12 ", "1e2", "nan", "inf", "0x10", "1_0", "٣", "12px", "%",
+         "inf%", "-inf%", "nan%", "1e400%", "-1e400%", "1e400", "1e-400%", "Infinity%", "9" * 320 + "%", "9" * 320,
          None, True, False]
 
 
@@ -103,6 +106,13 @@ def typed_seq(rng):
         # sequences of very small ints / empty strings: where type heuristics (0/1 as "normalised"?) go wrong
         n = rng.choice([3, 4])
         items = [rng.choice([0, 1, 0, 1, 2, "", " ", "0", "1"]) for _ in range(3)] + ([rng.choice([0.9, 0.5, 1, 0, "", 1.0])] if n == 4 else [])
+        return tuple(items) if rng.random() < 0.6 else items
+    if rng.random() < 0.06:
+        # what the heuristics read as HSL / HSLA: three floats no larger than 1, then an alpha of any kind
+        items = [round(rng.random(), rng.choice([1, 2, 3])) for _ in range(3)]
+        if rng.random() < 0.85:
+            items.append(rng.choice([-0.5, -1e-9, -1.0, -255.0, 0.0, 0.5, 1.0, 1.0000001, 1.5, 100.0, float("nan"), float("inf"), float("-inf"),
+                                     "0.5", "-0.5", "50%", "-50%", None, True, -1, 2]))
         return tuple(items) if rng.random() < 0.6 else items
     n = rng.choice([0, 1, 2, 3, 3, 3, 3, 4, 4, 4, 4, 5, 6])
     items = []
